@@ -27,6 +27,16 @@ def _dist_fn(qs, rs):
     return dist
 
 
+def _ham_fn(qs, rs):
+    cache = {}
+
+    def dist(q, r):
+        if (q, r) not in cache:
+            cache[(q, r)] = hc.ham_term(qs[q], rs[r])
+        return cache[(q, r)]
+    return dist
+
+
 def _fmt(got):
     from crosshair.core import deep_realize
     try:
@@ -91,7 +101,9 @@ def _same_state(s1, s2):
     return so.b_and(*conds)
 
 
-def _body_db(kind, rshape, q1shape, q2shape, k, among):
+def _body_db(kind, rshape, q1shape, q2shape, k, among, k2=None, mode2=None):
+    k2 = k if k2 is None else k2
+
     def body():
         from pyrepseq import nn
         from vlib import symops as so
@@ -99,24 +111,27 @@ def _body_db(kind, rshape, q1shape, q2shape, k, among):
         q1, q2 = _mk_strs("q", q1shape, among), _mk_strs("p", q2shape, among)
         if kind == "symdeldb":
             db = nn.SymdelDB(refs, k)
-            look = lambda q: db.lookup(q)
+            look = lambda q, kk, mode: db.lookup(q, custom_distance=mode)
         else:
             db = nn.LookupDB(refs)
-            look = lambda q: db.lookup(q, max_edits=k)
+            look = lambda q, kk, mode: db.lookup(q, max_edits=kk, custom_distance=mode)
         s0 = _index_state(db)
-        got1 = look(q1)
+        got1 = look(q1, k, mode2)          # first lookup in the OTHER mode/radius order: (mode2, k) then (default, k2)
         s1 = _index_state(db)
-        got2 = look(q2)
+        got2 = look(q2, k2, None)
         s2 = _index_state(db)
+        d1 = _dist_fn(q1, refs) if mode2 is None else _ham_fn(q1, refs)
         ok = so.b_and(
-            hc.exact_triplets(got1, len(q1), len(refs), _dist_fn(q1, refs), k, self_mode=False),
-            hc.exact_triplets(got2, len(q2), len(refs), _dist_fn(q2, refs), k, self_mode=False),
+            hc.exact_triplets(got1, len(q1), len(refs), d1, k, self_mode=False),
+            hc.exact_triplets(got2, len(q2), len(refs), _dist_fn(q2, refs), k2, self_mode=False),
             _same_state(s0, s1), _same_state(s1, s2))
         return ok, (lambda: f"{kind} lookups returned {_fmt(got1)} then {_fmt(got2)}")
     return body
 
 
-def _replay_db(kind, rshape, q1shape, q2shape, k):
+def _replay_db(kind, rshape, q1shape, q2shape, k, k2=None, mode2=None):
+    k2 = k if k2 is None else k2
+
     def replay(inputs):
         import copy
         from pyrepseq import nn
@@ -125,16 +140,16 @@ def _replay_db(kind, rshape, q1shape, q2shape, k):
         q2 = [inputs[f"p{i}"] for i in range(len(q2shape))]
         if kind == "symdeldb":
             db = nn.SymdelDB(list(refs), k)
-            look = lambda q: db.lookup(list(q))
+            look = lambda q, kk, mode: db.lookup(list(q), custom_distance=mode)
         else:
             db = nn.LookupDB(list(refs))
-            look = lambda q: db.lookup(list(q), max_edits=k)
+            look = lambda q, kk, mode: db.lookup(list(q), max_edits=kk, custom_distance=mode)
         st0 = copy.deepcopy({a: getattr(db, a) for a in ("variant_dict", "seq_dict") if hasattr(db, a)})
-        for q in (q1, q2):
-            got = look(q)
-            ok, detail = hc.compare_triplets(got, hc.want_triplets(q, refs, hc.lev, k, False))
+        for q, kk, mode in ((q1, k, mode2), (q2, k2, None)):
+            got = look(q, kk, mode)
+            ok, detail = hc.compare_triplets(got, hc.want_triplets(q, refs, hc.lev if mode is None else hc.ham, kk, False))
             if not ok:
-                return False, f"{kind}({refs!r}, k={k}).lookup({q!r}): {detail}"
+                return False, f"{kind}({refs!r}).lookup({q!r}, max_edits={kk}, custom_distance={mode!r}) [history: lookup 1 = {q1!r}/k={k}/{mode2!r}]: {detail}"
             st = {a: getattr(db, a) for a in ("variant_dict", "seq_dict") if hasattr(db, a)}
             if st != st0:
                 return False, f"{kind} index changed by lookup({q!r})"
@@ -160,10 +175,12 @@ def _mk_sd(rshape, qshape, k, entry="symdel", budget=150):
                      models=("rf",))
 
 
-def _mk_db(kind, rshape, q1, q2, k, letters=None, budget=200):
-    cid = f"C03/{kind}/ref={_sh(rshape)}/q1={_sh(q1)}/q2={_sh(q2)}/k={k}" + (f"/S{len(letters)}" if letters else "")
-    return Condition(cid, _body_db(kind, rshape, q1, q2, k, letters), _replay_db(kind, rshape, q1, q2, k), budget=budget,
-                     bounds=f"{kind}: references {rshape}, first query list {q1}, second {q2}, max_edits={k}, "
+def _mk_db(kind, rshape, q1, q2, k, letters=None, budget=200, k2=None, mode2=None):
+    cid = (f"C03/{kind}/ref={_sh(rshape)}/q1={_sh(q1)}/q2={_sh(q2)}/k={k}" + (f"/k2={k2}" if k2 is not None else "")
+           + (f"/first={mode2}" if mode2 else "") + (f"/S{len(letters)}" if letters else ""))
+    return Condition(cid, _body_db(kind, rshape, q1, q2, k, letters, k2, mode2), _replay_db(kind, rshape, q1, q2, k, k2, mode2), budget=budget,
+                     bounds=f"{kind}: references {rshape}, first query list {q1} (max_edits={k}, mode={mode2 or 'default'}), second {q2} "
+                            f"(max_edits={k2 if k2 is not None else k}, default mode), "
                             + (f"letters {letters}" if letters else "free Unicode"),
                      models=("rf",), setup=_setup_alpha(letters) if letters else None)
 
@@ -200,6 +217,15 @@ def conditions(tier):
     out.append(_mk_db("lookupdb", (1, 1), (1, 1), (1,), 1, S2))
     out.append(_mk_db("lookupdb", (1,), (1,), (0,), 1, S3))
     out.append(_mk_db("lookupdb", (2,), (1,), (1,), 1, S3))
+    # histories whose lookups differ in radius / mode (state cached by one lookup must not leak into the next)
+    out.append(_mk_db("lookupdb", (1,), (1,), (1,), 1, S2, k2=2))
+    out.append(_mk_db("lookupdb", (1,), (1,), (1,), 2, S2, k2=1))
+    out.append(_mk_db("lookupdb", (2,), (1,), (1,), 1, S2, k2=2))
+    out.append(_mk_db("lookupdb", (2,), (2,), (2,), 2, S2, k2=1, budget=400))
+    out.append(_mk_db("lookupdb", (1,), (1,), (1,), 1, S2, mode2="hamming"))
+    out.append(_mk_db("lookupdb", (2,), (1,), (1,), 1, S2, mode2="hamming"))
+    out.append(_mk_db("symdeldb", (2,), (2,), (2,), 1, mode2="hamming"))
+    out.append(_mk_db("symdeldb", (2, 1), (1,), (1,), 2, mode2="hamming"))
     out.append(_mk_db("lookupdb", (1,), (0,), (), 1, hc.AMINO, budget=300))
     out.append(_mk_db("lookupdb", (0,), (1,), (), 1, hc.AMINO, budget=300))
     if tier == "thorough":
